@@ -21,8 +21,8 @@ RULE = ('one run = 2-4 client tasks (own transaction manager, pooled '
         'than the last commit returned before the boundary; non-trivial = '
         '>= 2 commits and >= 1 context switch; distinct = hash of the '
         'schedule trace')
-BUDGET = {'quick': {'runs': 2400, 'wall': 300, 'chunk': 20},
-          'thorough': {'runs': 100000, 'wall': 3000, 'chunk': 50}}
+BUDGET = {'quick': {'runs': 6000, 'wall': 300, 'chunk': 20},
+          'thorough': {'runs': 600000, 'wall': 1800, 'chunk': 100}}
 ASSUMPTIONS = [
     'pre-emption points are lock operations and raw file I/O (the '
     'granularity the property states), not arbitrary bytecodes',
